@@ -14,6 +14,16 @@ def scaled(raw, k):
     return ({v: a * k for v, a in co.items()}, c * k)
 
 
+def near_twin(rng, raw):
+    """Same row with one coefficient moved by a relative 2^-18 (about 4e-6): a different constraint
+    that a tolerant term equality would take for a duplicate."""
+    co, c = raw
+    v = rng.choice(sorted(co))
+    co2 = dict(co)
+    co2[v] = co[v] * (1 + 2.0**-18)
+    return (co2, c)
+
+
 def weakened(raw, d):
     co, c = raw
     return (dict(co), c + d)
@@ -43,7 +53,7 @@ def viewpoint_pair(rng, shape, dyadic=0.0):
             if cands and rng.random() < 0.5:
                 r = rng.choice(cands)
                 how = rng.random()
-                dst[part].append(r if how < 0.4 else (scaled(r, 2) if how < 0.7 else weakened(r, rng.randint(1, 2))))
+                dst[part].append(r if how < 0.3 else (scaled(r, 2) if how < 0.55 else (weakened(r, rng.randint(1, 2)) if how < 0.8 else near_twin(rng, r))))
     return d1, d2
 
 
